@@ -130,8 +130,10 @@ def run(ctx):
     # 1. design level: the intended reader satisfies the property on the whole case tree
     w = ctx.pick(4, None)
     ctx.mc("ECRead", ctx.pick("ECRead.MC.cfg", "ECRead.MCThorough.cfg"), workers=w, timeout=ctx.pick(600, 3000))
-    # the model of the code (all named deviations): reads are idempotent (needed by the heal-scan binding)
-    ctx.mc("ECRead", ctx.pick("ECRead.MCCode.cfg", "ECRead.MCCodeThorough.cfg"), workers=w, timeout=ctx.pick(600, 3000))
+    # the model of the code (open deviations): reads are idempotent (needed by the heal-scan binding)
+    devs = ctx.deviations("D-C17")
+    ctx.mc("ECRead", ctx.pick("ECRead.MCCode.cfg", "ECRead.MCCodeThorough.cfg"), workers=w, timeout=ctx.pick(600, 3000),
+           subst={"Deviations": devs})
     # 2. cases from the spec's dimension sets; 3. execute on the real erasure-coding store
     dims = _dims(ctx)
     cases = _compose(ctx, dims)
@@ -145,10 +147,31 @@ def run(ctx):
     if len(trace) != len(cases):
         raise vlib.Infra("driver executed %d of %d cases" % (len(trace), len(cases)))
     # 4. TV against the model of the code (deviations = open known findings)
-    devs = ctx.deviations("D-C17")
     n, flagged = ctx.validate_cases("ECReadTrace", "ECRead.Trace.cfg", ctx.path("trace.ndjson"),
                                     subst={"Deviations": devs}, timeout=3000)
     ctx.evaluations = n
+    nfind = 0
+    for r in flagged:
+        line = trace[r["l"] - 1]
+        wit = {k: line[k] for k in ("D", "P", "L", "LO", "LF", "mode", "faults", "conc", "r1", "r2", "fresh1")}
+        if r["verdict"] == "finding" and r["tags"]:
+            nfind += 1
+            for t in sorted(r["tags"]):
+                ctx.finding(t, wit)
+        elif ctx.violations >= 5:
+            ctx.violations += 1          # counted; only the first five are written out as replays
+        else:
+            vlib.write_ndjson(ctx.path("replay.ndjson"), [line])
+            if r["verdict"] == "finding":
+                msg = "property violated on a path without any known deviation: %s" % json.dumps(wit)
+            elif r["verdict"] == "malformed":
+                msg = "case outside the spec's case space: %s" % json.dumps(line)[:600]
+            else:
+                msg = "case %s: real code observed %s, model of the code says %s" % (
+                    json.dumps({k: line[k] for k in ("D", "P", "L", "LO", "LF", "mode", "faults", "conc")}),
+                    json.dumps(r["got"]), json.dumps(r["expected"]))
+            ctx.violation(ctx.path("replay.ndjson"), msg)
+    ctx.extra["cases_violating_property_via_known_deviation"] = nfind
     # binding self-test: corrupt one logged field of a recorded line; validation must flag it
     probe = [json.loads(json.dumps(r)) for r in trace[:6]]
     probe[0]["r2"]["len"] += 1
@@ -156,6 +179,7 @@ def run(ctx):
     heal = next((r for r in trace if any(v["changed"] and v["frames"] for v in r["post1"])), None)
     if heal is None:
         raise vlib.Infra("no case with a healed shard was executed")
+    witness_heal = heal
     heal = json.loads(json.dumps(heal))
     v = next(v for v in heal["post1"] if v["changed"] and v["frames"])
     v["frames"][-1]["db"] += 1
@@ -194,27 +218,7 @@ def run(ctx):
     ctx.extra["shard_files_rewritten_by_healing"] = healed
     ctx.extra["heal_scan_cases"] = sum(1 for r in trace if r["mode"] == "scan")
     ctx.sample({k: trace[0][k] for k in ("D", "P", "L", "faults", "r1", "r2")})
-    ctx.sample({k: heal[k] for k in ("D", "P", "L", "faults", "conc", "r1")})
-    nfind = 0
-    for r in flagged:
-        line = trace[r["l"] - 1]
-        wit = {k: line[k] for k in ("D", "P", "L", "LO", "LF", "mode", "faults", "conc", "r1", "r2", "fresh1")}
-        if r["verdict"] == "finding" and r["tags"]:
-            nfind += 1
-            for t in sorted(r["tags"]):
-                ctx.finding(t, wit)
-        else:
-            vlib.write_ndjson(ctx.path("replay.ndjson"), [line])
-            if r["verdict"] == "finding":
-                msg = "property violated on a path without any known deviation: %s" % json.dumps(wit)
-            elif r["verdict"] == "malformed":
-                msg = "case outside the spec's case space: %s" % json.dumps(line)[:600]
-            else:
-                msg = "case %s: real code observed %s, model of the code says %s" % (
-                    json.dumps({k: line[k] for k in ("D", "P", "L", "LO", "LF", "mode", "faults", "conc")}),
-                    json.dumps(r["got"]), json.dumps(r["expected"]))
-            ctx.violation(ctx.path("replay.ndjson"), msg)
-    ctx.extra["cases_violating_property_via_known_deviation"] = nfind
+    ctx.sample({k: witness_heal[k] for k in ("D", "P", "L", "faults", "conc", "r1", "post1")})
     # every deviation the model of the code enables must have been exercised
     if not ctx.violations:
         missing = [t for t in ctx.open_tags("C17") if t not in ctx.findings_seen]
